@@ -357,14 +357,24 @@ func scratchDir() string {
 }
 
 // writeTemp writes data to a fresh file with the given suffix (".gz": gzip-compressed).
-func writeTemp(data []byte, suffix string) string {
+//
+// members > 1 writes a gzip file of that many concatenated members (as `cat a.gz b.gz` or bgzip
+// produce); such a file is a valid gzip file with the concatenated content.
+func writeTemp(data []byte, suffix string, members ...int) string {
 	tmpSeq++
 	p := filepath.Join(scratchDir(), fmt.Sprintf("f%d%s", tmpSeq, suffix))
 	if strings.HasSuffix(suffix, ".gz") {
+		n := 1
+		if len(members) > 0 && members[0] > 1 {
+			n = members[0]
+		}
 		var buf bytes.Buffer
-		zw := gzip.NewWriter(&buf)
-		zw.Write(data)
-		zw.Close()
+		for i := 0; i < n; i++ {
+			part := data[len(data)*i/n : len(data)*(i+1)/n]
+			zw := gzip.NewWriter(&buf)
+			zw.Write(part)
+			zw.Close()
+		}
 		data = buf.Bytes()
 	}
 	if err := os.WriteFile(p, data, 0o644); err != nil {
@@ -421,7 +431,19 @@ func plainField(t *rapid.T, label string) string { return string(plainWord.Draw(
 func genWellFormedLines(t *rapid.T, format string, nrecs int) []gen.B {
 	var lines []gen.B
 	add := func(s string) { lines = append(lines, gen.B(s)) }
+	// About one text in twelve has one very long line whose length straddles bufio's 4096-byte
+	// buffer (so that, in the CRLF rendering, CR and LF can fall into different fills).
+	longLen := 0
+	if rapid.IntRange(0, 23).Draw(t, "longLine") == 11 {
+		longLen = rapid.SampledFrom([]int{4090, 4093, 4094, 4095, 4096, 4097, 4098, 4099, 8191, 8192, 8193, 12289}).Draw(t, "longLen")
+	}
 	dna := func(label string, lo, hi int) string {
+		if longLen > 0 && hi >= 40 {
+			n := longLen
+			longLen = 0
+			unit := string(rapid.SliceOfN(rapid.SampledFrom([]byte("ACGTN")), 1, 9).Draw(t, label+"unit"))
+			return strings.Repeat(unit, n/len(unit)+1)[:n]
+		}
 		return string(rapid.SliceOfN(rapid.SampledFrom([]byte("ACGTN")), lo, hi).Draw(t, label))
 	}
 	switch format {
@@ -463,7 +485,12 @@ func genWellFormedLines(t *rapid.T, format string, nrecs int) []gen.B {
 		}
 		for i := 0; i < nrecs; i++ {
 			start := rapid.IntRange(0, 1000000).Draw(t, "start")
-			fields := []string{plainField(t, "chrom"), strconv.Itoa(start), strconv.Itoa(start + rapid.IntRange(1, 100000).Draw(t, "len")),
+			chrom := plainField(t, "chrom")
+			if longLen > 0 {
+				chrom = strings.Repeat("c", longLen)
+				longLen = 0
+			}
+			fields := []string{chrom, strconv.Itoa(start), strconv.Itoa(start + rapid.IntRange(1, 100000).Draw(t, "len")),
 				plainField(t, "name"), strconv.Itoa(rapid.IntRange(0, 1000).Draw(t, "score")), rapid.SampledFrom([]string{"+", "-", "."}).Draw(t, "strand"),
 				strconv.Itoa(start + 1), strconv.Itoa(start + 2), "255,0,128", "2", "10,20", "0,30"}
 			add(strings.Join(fields[:n], "\t"))
@@ -487,6 +514,10 @@ func genWellFormedLines(t *rapid.T, format string, nrecs int) []gen.B {
 			nn := rapid.IntRange(0, 4).Draw(t, "nnames")
 			for j := 0; j < nn; j++ {
 				ts.Names = append(ts.Names, plainWord.Draw(t, "nm"))
+			}
+			if longLen > 0 {
+				ts.Names = append(ts.Names, gen.B(strings.Repeat("n", longLen)))
+				longLen = 0
 			}
 			if rapid.Bool().Draw(t, "dists") {
 				ts.Dists = []gen.F{gen.F(float64(rapid.IntRange(0, 40).Draw(t, "d")) / 4), 0, 1.5}
@@ -603,7 +634,13 @@ func newArena(fields ...[]byte) *arena {
 }
 
 // field returns the i-th field as a sub-slice whose capacity extends over the following fields.
-func (a *arena) field(i int) []byte { return a.buf[a.bounds[i][0]:a.bounds[i][1]] }
+// Empty fields are returned as nil for even i and as empty non-nil slices for odd i.
+func (a *arena) field(i int) []byte {
+	if a.bounds[i][0] == a.bounds[i][1] && i%2 == 0 {
+		return nil
+	}
+	return a.buf[a.bounds[i][0]:a.bounds[i][1]]
+}
 
 func (a *arena) verify() error {
 	if !bytes.Equal(a.buf, a.orig) {
